@@ -336,7 +336,8 @@ TStep(s) ==
 TSkip(s) ==
   /\ IsRound /\ pos[s] < Len(Ev.ops[s])
   /\ (dying[s] \/ cst[s] = "absent") /\ (s \in kicked \/ s \in gone)
-  /\ Ev.ops[s][pos[s] + 1].k # "connect"
+  \* (a connection attempt is not something written to a dead connection: a failed one is never explained away)
+  /\ Ev.ops[s][pos[s] + 1].k \notin {"connect", "connect_failed"}
   /\ pos' = [pos EXCEPT ![s] = @ + 1]
   /\ skipd' = skipd \cup {s}
   /\ UNCHANGED vars /\ UNCHANGED <<l, cnt, sdone, gone, kicked, devs, carry, qfull>>
